@@ -69,7 +69,7 @@ CLASSES = {
             "gene": "Gene", "profile": "Profile", "sam": "Optional[Sample]",
             "_coverage": "Dict[int, Dict[str, List[Tuple[float, float]]]]",
             "_indels": "Optional[Dict[Tuple[int, str], Tuple[float, float]]]",
-            "_cnv_coverage": "Dict[int, int]",
+            "_cnv_coverage": "DefaultDict[int, int, 'int']",
             "_region_coverage": "Dict[Tuple[int, str], float]",
         },
     },
